@@ -14,6 +14,10 @@ From KV Require Export Yaml.Fmt.
 (* short forms used by the harness' term printer *)
 Definition h0 (tag : string) (style : N) : hdr := mkHdr "" "" "" "" tag style.
 Definition hc (head line foot tag : string) (style : N) : hdr := mkHdr head line foot "" tag style.
+(* the three most frequent node shapes: plain untagged-style string scalar, block mapping, block sequence *)
+Definition s0 (v : string) : cnode := CScalar (h0 "!!str" 0) v.
+Definition m0 (kvs : list (cnode * cnode)) : cnode := CMap (h0 "!!map" 0) kvs.
+Definition q0 (es : list cnode) : cnode := CSeq (h0 "!!seq" 0) es.
 
 Inductive case20 :=
 | KDocs (docs : list (cnode * sch)) (nonstr : list string)
